@@ -203,12 +203,23 @@ def policy (k : Int) (ps : List Proc) : List Int :=
 
 /-! ### 3. adjustByCPUSet -/
 
-/-- a pod of `GetAllPods()`; `valid` = resource-status annotation parses, cpuset non-empty and parses. -/
+/-- a pod of `GetAllPods()`; `valid` = resource-status annotation parses, cpuset non-empty and parses.
+    `life` is the pod's lifecycle state as the harness encodes it (0 phase unset, 1 Running,
+    2 Running + deletionTimestamp, 3 Pending, 4 Succeeded, 5 Failed, 6 Failed + deletionTimestamp).
+    Neither the pool map of adjustByCPUSet nor the exclusive map of calcBECPUSet consults it:
+    every pod that is still in the list counts (theorem `life_irrelevant`). -/
 structure PodC where
   valid : Bool
   qos   : Int
   cpus  : List Int
+  life  : Int := 0
 deriving Repr, DecidableEq
+
+/-- shape of the resource-status annotation (`apiext.GetResourceStatus` + `cpuset.Parse`):
+    0 = JSON with a cpuset string, 1 = no annotation, 2 = malformed JSON, 3 = `"cpuset": ""`,
+    4 = unparsable cpuset string.  A pod enters the maps iff the JSON parses, the string is
+    non-empty (kind 0 with an empty list renders as "") and parses. -/
+def annoValid (kind : Int) (cpus : List Int) : Bool := kind == 0 && !cpus.isEmpty
 
 /-- `cpuIdToPool[c]` after the loop over pods: the last valid pod listing `c` wins; `qNone` if none. -/
 def poolOf (pods : List PodC) (c : Int) : Int :=
@@ -254,6 +265,56 @@ def adjustCPUSet (f : FloatOps) (budgetMilli : Int) (oldN : Nat) (procs : List P
     let a := if lsrNum > 0 then policy lsrNum lsr else []
     let b := if cpus - lsrNum > 0 then policy (cpus - lsrNum) ls else []
     applyResult (a ++ b)
+
+/-! ### 3b. calcBECPUSet (recover path) and the kubelet-policy dispatch of applyBESuppressCPUSet -/
+
+/-- calcBECPUSet's `exclusiveCPUID` contribution of the pods: ANY valid LSE pod naming the CPU
+    (no last-pod-wins here, unlike `poolOf`). -/
+def lseClaimed (pods : List PodC) (c : Int) : Bool :=
+  pods.any (fun p => p.valid && p.qos == qLSE && p.cpus.contains c)
+
+/-- calcBECPUSet: all CPUs of the processor list minus system-exclusive, reserved and LSE-claimed ones. -/
+def calcBESet (procs : List Proc) (pods : List PodC) (reserved sysExcl : List Int) : List Int :=
+  (cpusOf procs).filter (fun c => !(sysExcl.contains c || reserved.contains c || lseClaimed pods c))
+
+/-- kubelet CPU-manager policy annotation of the NodeResourceTopology:
+    0 = absent / "none" / any other parsable value, 1 = "static", 2 = malformed JSON (error). -/
+def kpNone : Int := 0
+def kpStatic : Int := 1
+def kpBad : Int := 2
+
+/-- what one round leaves in the BE cgroup tree; `none` = that level is not written.
+    root = kubepods-besteffort, pod = its pod-level children, cont = container-level dirs. -/
+structure Written where
+  root : Option (List Int)
+  pod  : Option (List Int)
+  cont : Option (List Int)
+deriving Repr, DecidableEq
+
+def Written.nothing : Written := ⟨none, none, none⟩
+
+/-- adjustByCPUSet including `topo == nil`, the zero-pool return and applyBESuppressCPUSet's dispatch:
+    policy none  -> the selection is written to every level (empty selection: skipped);
+    policy static -> recoverCPUSetIfNeed(pod depth) writes calcBECPUSet to root + pod dirs FIRST
+                     (also when the selection is empty), then the selection goes to the container dirs only;
+    malformed policy annotation -> error, nothing written.   Result `none` = panic. -/
+def adjustFull (f : FloatOps) (kp : Int) (topoNil : Bool) (budgetMilli : Int) (oldN : Nat) (procs : List Proc)
+    (pods : List PodC) (reserved sysExcl : List Int) : Option Written :=
+  if topoNil then some .nothing else
+  if (lsrPool pods reserved sysExcl procs).length + (lsPool pods reserved sysExcl procs).length = 0 then some .nothing else
+  match adjustCPUSet f budgetMilli oldN procs pods reserved sysExcl with
+  | .panic => none
+  | .untouched =>
+    if kp = kpStatic then
+      let r := calcBESet procs pods reserved sysExcl
+      some ⟨some r, some r, none⟩
+    else some .nothing
+  | .write cs =>
+    if kp = kpBad then some .nothing
+    else if kp = kpStatic then
+      let r := calcBESet procs pods reserved sysExcl
+      some ⟨some r, some r, some cs⟩
+    else some ⟨some cs, some cs, some cs⟩
 
 /-! ### 4. adjustByCfsQuota -/
 
